@@ -311,7 +311,18 @@ def _restored_after_parse(ctx: Ctx) -> Set[str]:
                     if isinstance(x, ast.Assign):
                         for t in x.targets:
                             if isinstance(t, ast.Attribute) and src(t.value) == ov and t.attr in ("uuid", "note", "_uuid") and mentions(x.value, dv) or (isinstance(t, ast.Attribute) and src(t.value) == ov and t.attr in ("uuid", "note", "_uuid") and any(isinstance(y, ast.Name) for y in ast.walk(x.value))):
-                                stored.add(t.attr.lstrip("_"))
+                                # the two are restored independently: the note is not tied to the presence of a uuid
+                                # (copy() exports without uuid) and vice versa
+                                what = t.attr.lstrip("_")
+                                other_key = "uuid" if what == "note" else "note"
+                                tied = False
+                                par = getattr(x, "_parent", None)
+                                while par is not None and par is not n:
+                                    if isinstance(par, ast.If) and any(isinstance(y, ast.Constant) and y.value == other_key for y in ast.walk(par.test)) and any(x is z for b in par.body for z in ast.walk(b)):
+                                        tied = True
+                                    par = getattr(par, "_parent", None)
+                                if not tied:
+                                    stored.add(what)
                 if {"uuid", "note"} <= stored:
                     for attr, key in pairs[n.iter.id]:
                         if attr.lstrip("_") == key:
